@@ -58,6 +58,41 @@ def one(ctx, binary, name, kind, I, P, M, xmw, letters, ticks, depth, unit_ns, s
             raise vlib.Inconclusive("harness error: %s" % r)
 
 
+def conc(ctx, binary, name, kind, I, P, M, unit_ns, trials):
+    """Concurrent callers at one instant (direction B): rounds recorded from the real limiter, validated by TLC against the
+    property's definition (specs/LimiterConc.tla)."""
+    import os, re, tracecheck
+    path = os.path.join(ctx.work, "conc_%s.ndjson" % name)
+    hcfg = dict(kind=kind, I=I, P=P, M=M, maxWait=0, unit_ns=unit_ns)
+    r = vlib.run_harness(ctx, binary, "limiter_conc", args=dict(cfg=json.dumps(hcfg), n=trials, out=path, rounds=12, g=8), env_extra={"VH_SEED": str(ctx.seed)}, timeout=1200)
+    recs, summ = vlib.harness_summary(ctx, r, "limiter_conc")
+    ctx.traces += summ["n"]
+    ctx.nontrivial += min(summ["nontrivial"], summ["n"])
+    ctx.evaluations += summ["events"]
+    tla = "---- MODULE MC ----\nEXTENDS LimiterConc\n====\n"
+    cfg = ("SPECIFICATION TraceSpec\nCONSTANTS\n TraceFile = \"%s\"\n Kind = \"%s\"\n I = %d\n P = %d\n M = %d\nCONSTRAINT Progress\nPOSTCONDITION TraceAccepted\nCHECK_DEADLOCK FALSE\n"
+           % (path, kind, I, P, M))
+    d = vlib.stage_specs(ctx, "tv_conc_" + name, tla, cfg)
+    viol = []
+
+    def cb(line):
+        m = re.match(r'<<"LVIOL", (\d+), (.*)>>', line)
+        if m:
+            viol.append((int(m.group(1)), m.group(2)))
+        return False
+    res = vlib.run_tlc(ctx, d, workers=1, dfs=True, timeout=900, allow_fail=True, line_cb=cb)
+    if not res["ok"]:
+        raise vlib.Inconclusive("LimiterConc validation did not complete for %s:\n%s" % (name, "\n".join(res["tail"][-30:])))
+    for ln, want in viol[:3]:
+        lines = tracecheck.read_lines(path, 1, ln)
+        start = max(i for i, l in enumerate(lines) if l["ev"] == "Reset")
+        rounds = lines[start + 1:]
+        got = rounds[-1]
+        api = "Try" if got["mw"] == 0 else "Reserve" if got["mw"] == -1 else "TryReserve"
+        vlib.add_violation(ctx, "limiter:%s:conc:%s" % (kind, api), "%d concurrent callers at t=%d (maxWait %d) were granted waits %s; the definition grants %s after the earlier rounds"
+                           % (got["n"], got["t"], got["mw"], got["waits"], want), dict(config=hcfg, rounds=rounds, expected_waits=want))
+
+
 def classify(kind, M, P, steps, what):
     """Signature of a mismatch: the API call that disagreed."""
     last = steps[-1]
@@ -75,7 +110,11 @@ def run(ctx):
         n, dp = (200, 40) if quick else (1500, 60)
         jobs.append((name, kind, I, P, M, xmw, letters, ticks, dp, units[(i + 1 + ctx.seed) % 3], "num=%d" % n))
     with ThreadPoolExecutor(max_workers=5) as ex:
-        for f in [ex.submit(one, ctx, binary, *j) for j in jobs]:
+        fs = [ex.submit(one, ctx, binary, *j) for j in jobs]
+        for i, (name, kind, I, P, M, xmw, letters, ticks) in enumerate(CONFIGS):
+            fs.append(ex.submit(conc, ctx, binary, name, kind, I * 2, P * 2, M, units[(i + ctx.seed) % 2], 60 if quick else 1500))
+        for f in fs:
             f.result()
     return vlib.finish(ctx, rule="every history of depth D over the configured call/tick alphabet per limiter configuration (TLC tree enumeration) + TLC -simulate random long histories; "
+                       "plus 2-8 concurrent callers at one virtual instant x 12 rounds per limiter (TryAcquirePermit / TryReservePermit / ReservePermit), answers validated by TLC against the definition (LimiterConc.tla); "
                        "non-trivial = at least one request had to wait or was refused", exhaustive=True)
